@@ -590,7 +590,7 @@ class C13Stream(Stream):
         h = {'ids_0': 0, 'ids_1': 0, 'ids_2': 0, 'ids_3': 0, 'nodes_label_only': 0, 'nodes_capacity_only': 0,
              'nodes_both': 0, 'nodes_none': 0, 'nodes_multi_id': 0, 'pool_definitions': 0, 'pool_references': 0,
              'stitch_nodes': 0, 'stitch_with_delegation': 0, 'empty_delegations_property': 0, 'via_annotate_api': 0,
-             'links_with_3plus_cps': 0, 'proper_partitions': 0, 'partitions': 0, 'max_nodes': 0, 'total_nodes': 0,
+             'links_with_3plus_cps': 0, 'interfaces_on_2plus_links': 0, 'proper_partitions': 0, 'partitions': 0, 'max_nodes': 0, 'total_nodes': 0,
              'explicit_guids': 0, 'raised': 0}
         for c, o in zip(cases, obs):
             if 'before' not in o:
@@ -619,6 +619,9 @@ class C13Stream(Stream):
                 h['stitch_with_delegation'] += n['Stitch'] == 'true' and (l or cp)
                 if n['Class'] == 'Link' and len(nb(B, nid)) >= 3:
                     h['links_with_3plus_cps'] += 1
+                if n['Class'] == 'ConnectionPoint' and \
+                        sum(1 for x in nb(B, nid) if B['nodes'][x]['Class'] == 'Link') >= 2:
+                    h['interfaces_on_2plus_links'] += 1
             for d, v in o.get('adms', {}).items():
                 h['partitions'] += 1
                 h['proper_partitions'] += len(v['snap']['nodes']) < len(B['nodes'])
@@ -735,7 +738,7 @@ class Topo(C13Stream):
         return {'stream': 'topo', 'sites': sites, 'isl': isl}
 
     def gen(self, rng, tier):
-        n = 90 if tier == 'quick' else 1500
+        n = 120 if tier == 'quick' else 1000
         out = []
         for i in range(n):
             case = self.recipe(rng, big=(tier != 'quick' or i % 6 == 0))
@@ -765,7 +768,7 @@ class Raw(C13Stream):
             'delegation ids incl. empty delegation objects; non-trivial = at least one delegation id')
 
     def gen(self, rng, tier):
-        n = 260 if tier == 'quick' else 6000
+        n = 360 if tier == 'quick' else 5000
         out = []
         for _ in range(n):
             nn = rng.randint(2, 14)
@@ -843,6 +846,30 @@ def replay_one_hop():
                    'reading': 'b is kept, its link l2 and peer c are not'}
 
 
+def replay_own_guid():
+    """witness of C13_source_untouched_needs_fresh_ids_refuted on the implementation: delegation_guids names the
+    aggregate model's own graph id for one delegation id"""
+    with open(os.path.join(VERIF, 'corpus', 'C13', 'two_ids_one_node.json')) as f:
+        case = json.load(f)
+    case.pop('_comment', None)
+    _reset()
+    arm = build_topo(copy.deepcopy(case))
+    present = set(snapshot(arm.storage, arm.graph_id)['nodes'])
+    annotate(arm, case, present)
+    before = snapshot(arm.storage, arm.graph_id)
+    try:
+        arm.generate_adms(delegation_guids={'primary': arm.graph_id})
+        outcome = 'returned'
+    except Exception as e:
+        outcome = 'raised ' + type(e).__name__
+    after = snapshot(arm.storage, arm.graph_id)
+    _reset()
+    changed = [n for n in before['nodes'] if after['nodes'].get(n) != before['nodes'][n]]
+    still = outcome == 'returned' and after != before
+    return still, {'call': "generate_adms(delegation_guids={'primary': <the ARM's own graph id>})", 'outcome': outcome,
+                   'arm_modified': after != before, 'nodes_changed_or_removed': sorted(changed)[:6]}
+
+
 class C13(Check):
     pid = 'C13'
     translators = ['gen_adm13']
@@ -866,7 +893,8 @@ class C13(Check):
     ]
 
     def refuted_witnesses(self):
-        return [('C13_closure_every_kept_interface_refuted', replay_one_hop)]
+        return [('C13_closure_every_kept_interface_refuted', replay_one_hop),
+                ('C13_source_untouched_needs_fresh_ids_refuted', replay_own_guid)]
 
 
 if __name__ == '__main__':
